@@ -20,6 +20,10 @@ PRELUDE = r'''
 #include "nmtools/array/view/matmul.hpp"
 #include "nmtools/array/view/expand_dims.hpp"
 #include "nmtools/array/view/broadcast_to.hpp"
+#include "nmtools/array/view/where.hpp"
+#include "nmtools/array/view/stack.hpp"
+#include "nmtools/array/index/tile.hpp"
+#include "nmtools/array/index/broadcast_shape.hpp"
 #include "nmtools/utility/isequal.hpp"
 #include "nmtools/utility/cast.hpp"
 #include "nmtools/utl.hpp"
@@ -35,6 +39,11 @@ using dyn2_a   = na::ndarray_t<nmtools_list<float>, nmtools_array<size_t,2>>;   
 using c13_a    = na::ndarray_t<nmtools_array<float,3>, nmtools_tuple<meta::ct<1>,meta::ct<3>>>;     // constant shape (1,3): axis 0 stretches
 using c23_a    = fixed_a;
 template <class T> T& lv();
+using i23_a = na::ndarray_t<nmtools_array<int,6>, nmtools_array<size_t,2>>;       // int elements, run-time (2-d) shape
+using d23_a = na::ndarray_t<nmtools_array<double,6>, nmtools_array<size_t,2>>;    // double elements
+using b23_a = na::ndarray_t<nmtools_array<bool,6>, nmtools_array<size_t,2>>;
+template <class V> using elem_of = meta::get_element_type_t<V>;
+template <class X> using access_of = std::remove_cv_t<std::remove_reference_t<X>>;
 '''
 
 def W(id, prop, kind, why, code):
@@ -140,3 +149,34 @@ def _cast_witnesses():
                 "static_assert(%s); static_assert(%s); static_assert(std::is_same_v<meta::get_element_type_t<R>, float>); }" % (kind, sp, bp)))
     return out
 WITNESSES += _cast_witnesses()
+
+# ---------------- C10 / C04 / C07: the element type a view publishes (what the evaluator allocates) is the type its element access yields,
+#                  and it is the common type of the value operands - a narrower published type truncates in the eager result only
+def _elem_witnesses():
+    out = []
+    def both(id, prop, why, build):
+        out.append(W(id, prop, "pass", why,
+            "void f(i23_a& xi, d23_a& xd, b23_a& c){ auto v = %s; using V = decltype(v); static_assert(std::is_same_v<elem_of<V>, double>); "
+            "static_assert(std::is_same_v<access_of<decltype(v(0,0))>, double>); }" % build))
+    both("c10_concat_int_double", "C10", "concatenate(int array, double array): published element type and access type are double", "nm::unwrap(view::concatenate(xi, xd, 0))")
+    both("c10_concat_double_int", "C10", "concatenate(double array, int array): published element type and access type are double", "nm::unwrap(view::concatenate(xd, xi, 0))")
+    both("c10_add_int_double", "C10", "add(int array, double array): published element type and access type are double", "nm::unwrap(view::add(xi, xd))")
+    both("c04_where_int_double", "C04", "where(cond, int x, double y): element type is the common type of x and y (y is not truncated)", "nm::unwrap(view::where(c, xi, xd))")
+    both("c04_where_double_int", "C04", "where(cond, double x, int y): element type is the common type of x and y", "nm::unwrap(view::where(c, xd, xi))")
+    return out
+WITNESSES += _elem_witnesses()
+
+# ---------------- C09 / C02: the result container of an index function whose result can be as long as its LONGER argument has room for it,
+#                  whichever argument is the bounded one
+WITNESSES += [
+ W("c09_tile_cap_fixed_shape_bounded_reps", "C09", "pass", "shape_tile(fixed shape of 2, reps bounded by 4): the result can hold 4 extents",
+   "void f(nmtools_array<size_t,2>& s, nm::utl::static_vector<size_t,4>& r){ using R = decltype(nm::index::shape_tile(s, r)); static_assert(meta::bounded_size_v<R> >= 4 || meta::len_v<R> >= 4); }"),
+ W("c09_tile_cap_bounded_shape_fixed_reps", "C09", "pass", "shape_tile(shape bounded by 4, fixed reps of 2): the result can hold 4 extents",
+   "void f(nm::utl::static_vector<size_t,4>& s, nmtools_array<size_t,2>& r){ using R = decltype(nm::index::shape_tile(s, r)); static_assert(meta::bounded_size_v<R> >= 4 || meta::len_v<R> >= 4); }"),
+ W("c09_tile_cap_fixed_longer_reps", "C09", "pass", "shape_tile(fixed shape of 2, fixed reps of 3): the result holds 3 extents",
+   "void f(nmtools_array<size_t,2>& s, nmtools_array<size_t,3>& r){ using R = decltype(nm::index::shape_tile(s, r)); static_assert(meta::len_v<R> == 3); }"),
+ W("c09_bshape_cap_fixed_bounded", "C09", "pass", "broadcast_shape(fixed shape of 2, shape bounded by 4): the result can hold 4 extents",
+   "void f(nmtools_array<size_t,2>& a, nm::utl::static_vector<size_t,4>& b){ using R = meta::get_maybe_type_t<decltype(nm::index::broadcast_shape(a, b))>; static_assert(meta::bounded_size_v<R> >= 4 || meta::len_v<R> >= 4); }"),
+ W("c09_bshape_cap_bounded_fixed", "C09", "pass", "broadcast_shape(shape bounded by 4, fixed shape of 2): the result can hold 4 extents",
+   "void f(nmtools_array<size_t,2>& a, nm::utl::static_vector<size_t,4>& b){ using R = meta::get_maybe_type_t<decltype(nm::index::broadcast_shape(b, a))>; static_assert(meta::bounded_size_v<R> >= 4 || meta::len_v<R> >= 4); }"),
+]
